@@ -176,3 +176,8 @@ Definition scratch_sig_render (chipid sigid : N) : json :=
 (* the FFDC payload is JSON text, UTF-8, NUL-terminated (any number of NULs); shown is what that text
    denotes ({"@loads": t} = the value json.loads gives for t) *)
 Definition ffdc_render (t : text) : json := JObj [(L "Callout List FFDC", JObj [(L "@loads", JStr t)])].
+
+(* a chip-data environment all of whose register addresses are hex numbers *)
+Definition cd_addrs_wf (cd : chipdata) : Prop :=
+  Forall (fun kc => Forall (fun ke => Forall (fun ia => parse_addr (snd ia) <> None) (rg_addrs (snd ke)))
+                           (c_regs (snd kc))) cd.
